@@ -580,6 +580,9 @@ class Sim:
         if self.sleep_overshoot is not None:
             d = d + self.sleep_overshoot(d)
         cur = self.current
+        if self.atomic_tid is not None and self.atomic_tid == cur.tid:
+            self.atomic_tid = None
+            self.atomic_breaks += 1
         self.steps += 1
         cur.steps += 1
         self.digest = zlib.crc32(b'%d:S;' % cur.tid, self.digest)
